@@ -14,6 +14,8 @@ import Ladybug.Proofs.C03Dict
 import Ladybug.Proofs.C03Cont
 import Ladybug.Proofs.C03Stats
 import Ladybug.Proofs.C03Samples
+import Ladybug.Proofs.C03Month
+import Ladybug.Proofs.C03Mph
 
 open Cal
 
@@ -44,18 +46,53 @@ theorem C03_disc_month {α : Type} (data : List (DT × α))
   simp only [monthKeys, List.mem_range'_1]
   omega
 
-/-- **group_by_month_per_hour computes the specification.**  Partial: the side conditions are stated
-    on the key list of the model (`mphKeys timestep` has no repeated key and contains the
-    (month, hour, minute) of every datetime) instead of being derived from "timestep is valid and
-    every datetime lies on the timestep grid"; the `example` below discharges them for timestep 1. -/
-theorem C03_disc_mph_partial {α : Type} (ap : AP) (data : List (DT × α))
-    (hnd : (mphKeys ap.timestep).Nodup)
-    (hall : ∀ x ∈ data, (x.1.month, x.1.hour, x.1.minute) ∈ mphKeys ap.timestep) :
+/-- **group_by_month_per_hour computes the specification**, for all 12 valid timesteps: when every
+    datetime is a date-time (month 1..12, hour ≤ 23, minute ≤ 59) on the grid of `60 / timestep`
+    minutes, the result has the keys `(m, h, mi)` for `m = 1..12` and every step `h:mi` of the day, in
+    that order, each built once, and holds at each key exactly the values whose own datetime has that
+    month, hour and minute, in the order of the collection. -/
+theorem C03_disc_mph {α : Type} (ap : AP) (hts : ap.timestep ∈ Gen.Ap.validTimesteps) (data : List (DT × α))
+    (hall : ∀ x ∈ data, 1 ≤ x.1.month ∧ x.1.month ≤ 12 ∧ x.1.hour ≤ 23 ∧ x.1.minute ≤ 59 ∧
+      x.1.minute % ap.step = 0) :
     discMph ap data
-      = .ok (tab (mphKeys ap.timestep) (groupOf (fun d : DT => (d.month, d.hour, d.minute)) data)) :=
-  keyed_ok _ hnd _ data hall
+      = .ok (tab (mphKeys ap.timestep) (groupOf (fun d : DT => (d.month, d.hour, d.minute)) data)) := by
+  obtain ⟨p1, p2⟩ := valid_ts_pos ap.timestep hts
+  apply keyed_ok _ (mphKeys_nodup ap.timestep p1 p2)
+  intro x hx
+  obtain ⟨a, b, c, d, e⟩ := hall x hx
+  exact grid_mem_mphKeys ap.timestep hts _ _ _ a b c d e
 
-example : (mphKeys 1).Nodup ∧ (3, 23, 0) ∈ mphKeys 1 ∧ (3, 23, 30) ∉ mphKeys 1 := mph_example
+/-- The key list of `group_by_month_per_hour` has no repeated key and contains exactly the
+    (month, hour, minute) triples of months 1..12 and the steps of a day. -/
+theorem C03_mph_keys (ts : Nat) (hts : ts ∈ Gen.Ap.validTimesteps) :
+    (mphKeys ts).Nodup ∧ (mphKeys ts).length = 12 * (24 * ts) ∧
+    ∀ mo hr mi, (mo, hr, mi) ∈ mphKeys ts → 1 ≤ mo ∧ mo ≤ 12 ∧ hr ≤ 23 ∧ mi ≤ 59 ∧ mi % (60 / ts) = 0 := by
+  obtain ⟨p1, p2⟩ := valid_ts_pos ts hts
+  refine ⟨mphKeys_nodup ts p1 p2, ?_, ?_⟩
+  · simp only [mphKeys, monthKeys, List.length_flatMap, List.length_map, List.length_range]
+    rw [show List.range' 1 12 = [1, 2, 3, 4, 5, 6, 7, 8, 9, 10, 11, 12] from rfl]
+    simp only [List.map_cons, List.map_nil, List.sum_cons, List.sum_nil]
+    omega
+  · intro mo hr mi h
+    rw [mem_mphKeys] at h
+    obtain ⟨hm, h', hh, e1, e2⟩ := h
+    simp only at e1 e2
+    rcases AP.ts_cases hts with rfl | rfl | rfl | rfl | rfl | rfl | rfl | rfl | rfl | rfl | rfl | rfl <;>
+      simp only [Nat.reduceDiv] at e2 ⊢ <;> omega
+
+/-- **A step off the timestep grid raises KeyError in `group_by_month_per_hour`** (it is not dropped
+    or put into a neighbouring key). -/
+theorem C03_mph_offgrid {α : Type} (ap : AP) (hts : ap.timestep ∈ Gen.Ap.validTimesteps) (data : List (DT × α))
+    (hbad : ∃ x ∈ data, x.1.minute % ap.step ≠ 0) : discMph ap data = .error .key := by
+  obtain ⟨p1, p2⟩ := valid_ts_pos ap.timestep hts
+  obtain ⟨x, hx, hg⟩ := hbad
+  exact keyed_error _ (mphKeys_nodup ap.timestep p1 p2) _ data
+    ⟨x, hx, offgrid_not_mem_mphKeys ap.timestep hts _ _ _ hg⟩
+
+example : (3, 23, 30) ∈ mphKeys 2 ∧ (3, 23, 30) ∉ mphKeys 1 := by
+  constructor
+  · exact grid_mem_mphKeys 2 (by decide) 3 23 30 (by omega) (by omega) (by omega) (by omega) (by decide)
+  · exact offgrid_not_mem_mphKeys 1 (by decide) 3 23 30 (by decide)
 
 /-- **A datetime outside the dictionary raises KeyError** (e.g. a step off the timestep grid in
     `group_by_month_per_hour`, or day 366 under a non-leap header) – nothing is silently dropped. -/
@@ -137,20 +174,31 @@ theorem C03_cont_eq_keyed_day {α : Type} (ap : AP) (hwf : ap.WF) (h0 : ap.st_ho
 example : (⟨12, 27, 0, 1, 2, 23, 4, true⟩ : AP).WF ∧ (⟨12, 27, 0, 1, 2, 23, 4, true⟩ : AP).isReversed = true ∧
     (⟨12, 27, 0, 1, 2, 23, 4, true⟩ : AP).len = 672 := by decide
 
-/-- Continuous = keyed **by month** – partial: checked by kernel evaluation on the small sample periods
-    below (Jan 30 – Feb 2 and Dec 30 – Jan 2: the shapes of the historical failures; the first conjunct
-    re-checks the day theorem on Dec 26 – Jan 3), not proved for all periods.  The general statement is
-    `discMonth (ds.zip vals) = contMonth ap vals` under the hypotheses of `C03_cont_eq_keyed_day`; missing
-    is the calendar lemma that the months of the steps of a whole-day period form the blocks
-    `(days left in the first month)·24·ts, (days of each following month)·24·ts`.  The statement is compared on
-    generated periods (all shapes, incl. wrap inside one month) by the correspondence and by the
-    oracle (`partition`, `cont_vs_disc`) on every run. -/
-theorem C03_cont_eq_keyed_samples_partial :
-    (∀ ap ∈ ([⟨12, 26, 0, 1, 3, 23, 1, false⟩] : List AP),
-      discDay ap ((dtsOf ap).zip (List.range ap.len)) = .ok (contDay ap (List.range ap.len))) ∧
-    (∀ ap ∈ ([⟨1, 30, 0, 2, 2, 23, 1, false⟩, ⟨12, 30, 0, 1, 2, 23, 1, false⟩] : List AP),
-      discMonth ((dtsOf ap).zip (List.range ap.len)) = contMonth ap (List.range ap.len)) :=
-  samples_ok
+/-- **Continuous = keyed, by month, for every continuous collection** (annual, partial, wrapping the
+    year end, and wrapping inside one month so that this month is visited twice; all 12 timesteps; leap
+    or not; any values of any type): `group_by_month` of the continuous collection – the slice
+    arithmetic `values[indx : indx + days·24·timestep]` – returns exactly the dictionary that the
+    datetime-keyed algorithm returns for the same values paired with the period's own datetimes `ds`.
+    With `C03_disc_month` / `C03_keyed_partition`: every value sits in the month of its own datetime,
+    no month group is one value too long, nothing of a month visited twice is lost.
+    Rests on the calendar lemma `month_iff_doy` (a valid date-time is in month `mo` iff its day number
+    lies in the run of days of `mo`; from a finite check of `daysBefore` for both years). -/
+theorem C03_cont_eq_keyed_month {α : Type} (ap : AP) (hwf : ap.WF) (h0 : ap.st_hour = 0) (h23 : ap.end_hour = 23)
+    (ds : List DT) (hds : ap.datetimes = ds.map .ok) (vals : List α)
+    (hlen : vals.length = ap.len) :
+    discMonth (ds.zip vals) = contMonth ap vals := by
+  have hlen' : vals.length = ap.moys.length := by rw [hlen, AP.C04_len ap hwf]
+  rw [contMonth_eq ap hwf h0 h23 ds hds vals hlen']
+  apply C03_disc_month
+  intro x hx
+  obtain ⟨hdl, hdf⟩ := ds_facts ap hwf ds hds
+  obtain ⟨i, hi, he⟩ := List.getElem_of_mem (List.of_mem_zip hx).1
+  obtain ⟨g1, _, _, _⟩ := hdf i hi (by omega)
+  rw [← he]
+  exact ⟨g1.1, g1.2.1⟩
+
+example : (⟨1, 20, 0, 1, 10, 23, 2, true⟩ : AP).WF ∧ (⟨1, 20, 0, 1, 10, 23, 2, true⟩ : AP).isReversed = true ∧
+    (⟨1, 20, 0, 1, 10, 23, 2, true⟩ : AP).monthsInt = [1, 2, 3, 4, 5, 6, 7, 8, 9, 10, 11, 12, 1] := by decide
 
 /-! ### Statistics per interval -/
 
@@ -217,6 +265,79 @@ theorem C03_monthly_stats (ap : AP) (hwf : ap.WF) (data : List (DT × Rat))
   have := (AP.mem_monthsInt ap i).mp hi
   simp only [monthKeys, List.mem_range'_1]
   omega
+
+/-- **Month-per-hour statistics of a discontinuous collection, end to end**:
+    `average_/total_/percentile_monthly_per_hour` report for every entry of `months_per_hour` (header
+    period, in its order) that has data the statistic of exactly the values whose own datetime has
+    that month, hour and minute. -/
+theorem C03_mph_stats (ap : AP) (hwf : ap.WF) (data : List (DT × Rat))
+    (hall : ∀ x ∈ data, 1 ≤ x.1.month ∧ x.1.month ≤ 12 ∧ x.1.hour ≤ 23 ∧ x.1.minute ≤ 59 ∧
+      x.1.minute % ap.step = 0)
+    (op : Stats.Op) (hadm : op.admissible = true) :
+    (discMph ap data).bind (fun d => intervalOp d ap.monthsPerHour op.apply)
+      = .ok ((ap.monthsPerHour.filter fun i =>
+            !(groupOf (fun d : DT => (d.month, d.hour, d.minute)) data i).isEmpty).map
+          fun i => (i, statValue op (groupOf (fun d : DT => (d.month, d.hour, d.minute)) data i))) := by
+  rw [C03_disc_mph ap hwf.2.2 data hall]
+  simp only [bind, Except.bind]
+  exact C03_stat_of_groups _ _ _ (monthsPerHour_subset ap hwf) op hadm
+
+/-- The datetimes of a well-formed period are date-times on its timestep grid. -/
+theorem C03_period_datetimes_on_grid (ap : AP) (hwf : ap.WF) (ds : List DT) (hds : ap.datetimes = ds.map .ok)
+    (d : DT) (hd : d ∈ ds) :
+    1 ≤ d.month ∧ d.month ≤ 12 ∧ d.hour ≤ 23 ∧ d.minute ≤ 59 ∧ d.minute % ap.step = 0 ∧
+      1 ≤ d.doy ∧ d.doy ≤ daysInYear ap.leap := by
+  obtain ⟨hdl, hdf⟩ := ds_facts ap hwf ds hds
+  obtain ⟨i, hi, he⟩ := List.getElem_of_mem hd
+  obtain ⟨g1, g2, g3, g4⟩ := hdf i hi (by omega)
+  rw [← he]
+  have hp := (AP.C04_mem_moys ap hwf _).mp (List.getElem_mem (by omega : i < ap.moys.length))
+  have hmin : ds[i].minute = ap.moys[i] % 60 := by
+    have : ds[i].moy = ds[i].intHoy * 60 + ds[i].minute := rfl
+    have := g1.2.2.2.2.2
+    omega
+  have hdvd : ap.step ∣ 60 := ⟨ap.timestep, by
+    have := (AP.ts_facts ap hwf.2.2 0 0 (by omega) (by omega)).2.2.2.2.2
+    rw [Nat.mul_comm]; exact this.symm⟩
+  have hy : minutesInYear ap.leap = 1440 * daysInYear ap.leap := rfl
+  refine ⟨g1.1, g1.2.1, g1.2.2.2.2.1, g1.2.2.2.2.2, ?_, ?_, ?_⟩
+  · rw [hmin, Nat.mod_mod_of_dvd _ hdvd]; exact hp.2.1
+  · rw [g3]; omega
+  · rw [g3]; have := hp.1; omega
+
+/-- **Statistics of a continuous collection, end to end, for the three intervals**: with `ds` the
+    period's own datetimes, `average_/total_/percentile_ daily | monthly | monthly_per_hour` of the
+    continuous collection (slice-based groups for day and month, the inherited keyed grouping for
+    month-per-hour) report – in `doys_int` / `months_int` / `months_per_hour` order, groups without data
+    skipped – the statistic of exactly the values whose own datetime falls on that day / in that month /
+    on that month-hour-minute.  Hence continuous and discontinuous collections holding the same data
+    give the same statistics (`C03_daily_stats`, `C03_monthly_stats`, `C03_mph_stats` have the same
+    right-hand sides). -/
+theorem C03_cont_stats (ap : AP) (hwf : ap.WF) (h0 : ap.st_hour = 0) (h23 : ap.end_hour = 23)
+    (ds : List DT) (hds : ap.datetimes = ds.map .ok) (vals : List Rat) (hlen : vals.length = ap.len)
+    (op : Stats.Op) (hadm : op.admissible = true) :
+    intervalOp (contDay ap vals) ap.doysInt op.apply
+      = .ok ((ap.doysInt.filter fun i => !(groupOf DT.doy (ds.zip vals) i).isEmpty).map
+          fun i => (i, statValue op (groupOf DT.doy (ds.zip vals) i))) ∧
+    (contMonth ap vals).bind (fun d => intervalOp d ap.monthsInt op.apply)
+      = .ok ((ap.monthsInt.filter fun i => !(groupOf DT.month (ds.zip vals) i).isEmpty).map
+          fun i => (i, statValue op (groupOf DT.month (ds.zip vals) i))) ∧
+    (discMph ap (ds.zip vals)).bind (fun d => intervalOp d ap.monthsPerHour op.apply)
+      = .ok ((ap.monthsPerHour.filter fun i =>
+            !(groupOf (fun d : DT => (d.month, d.hour, d.minute)) (ds.zip vals) i).isEmpty).map
+          fun i => (i, statValue op (groupOf (fun d : DT => (d.month, d.hour, d.minute)) (ds.zip vals) i))) := by
+  have hgrid := fun x (hx : x ∈ ds.zip vals) => C03_period_datetimes_on_grid ap hwf ds hds x.1 (List.of_mem_zip hx).1
+  refine ⟨?_, ?_, ?_⟩
+  · have h1 := C03_cont_eq_keyed_day ap hwf h0 h23 ds hds vals hlen
+    have h2 := C03_daily_stats ap hwf (ds.zip vals) (fun x hx => ⟨(hgrid x hx).2.2.2.2.2.1, (hgrid x hx).2.2.2.2.2.2⟩) op hadm
+    rw [h1] at h2
+    simpa [bind, Except.bind] using h2
+  · have h1 := C03_cont_eq_keyed_month ap hwf h0 h23 ds hds vals hlen
+    have h2 := C03_monthly_stats ap hwf (ds.zip vals) (fun x hx => ⟨(hgrid x hx).1, (hgrid x hx).2.1⟩) op hadm
+    rw [h1] at h2
+    exact h2
+  · exact C03_mph_stats ap hwf (ds.zip vals)
+      (fun x hx => ⟨(hgrid x hx).1, (hgrid x hx).2.1, (hgrid x hx).2.2.1, (hgrid x hx).2.2.2.1, (hgrid x hx).2.2.2.2.1⟩) op hadm
 
 /-- **No day with data is skipped**: when every datetime of the collection is a valid date-time that
     is a step of the header period, the day of every value is in `doys_int` (so its group is reported). -/
@@ -397,6 +518,20 @@ theorem C03_highest_lowest (vals : List Rat) (count : Int) :
     · simp [a]
 
 #guard highestValues [1, 5, 3, 5] 3 = .ok ([5, 5, 3], [1, 3, 2])
+
+/-- **Stability of the index lists**: along `highest_values`' index list the values descend and equal
+    values keep their original order (smaller index first); along `lowest_values`' index list the values
+    ascend and equal values keep their original order – Python's `sorted` (also with `reverse=True`) is
+    stable.  (The lists returned are prefixes `take count` of these, so the same holds for them.) -/
+theorem C03_highest_lowest_stable (vals : List Rat) (count : Nat) :
+    ((argsortDesc vals).take count).Pairwise (fun i j =>
+      vals.getD j 0 ≤ vals.getD i 0 ∧ (vals.getD i 0 = vals.getD j 0 → i < j)) ∧
+    ((argsortAsc vals).take count).Pairwise (fun i j =>
+      vals.getD i 0 ≤ vals.getD j 0 ∧ (vals.getD i 0 = vals.getD j 0 → i < j)) :=
+  ⟨(argsortDesc_stable vals).sublist (List.take_sublist _ _),
+   (argsortAsc_stable vals).sublist (List.take_sublist _ _)⟩
+
+#guard (argsortDesc [2, 5, 2, 5, 1]) = [1, 3, 0, 2, 4] ∧ (argsortAsc [2, 5, 2, 5, 1]) = [4, 0, 2, 1, 3]
 
 /-- `total` does not depend on the order of the values and adds over concatenation – so the total of
     the groups' totals is the total of the collection (with `C03_keyed_partition`, item 3). -/
